@@ -111,7 +111,7 @@ def _interesting_start(rng, ground):
     return kind, lat, lon
 
 
-def _gen_aircraft(rng, idx, T, used, fast=False):
+def _gen_aircraft(rng, idx, T, used, fast=False, land_at=None):
     while True:
         icao = "%06X" % rng.randrange(1, 1 << rng.choice([24, 24, 24, 20, 16, 8]))   # some with leading zero nibbles
         if icao not in used:
@@ -131,6 +131,8 @@ def _gen_aircraft(rng, idx, T, used, fast=False):
     alt = 0.0 if ground else rng.choice([1000, 5000, 12000, 35000, 41000])
     while t < T:
         dur = rng.choice([10, 20, 40, 80, 150, 300])
+        if land_at is not None and not ground and t >= land_at:
+            ground = True   # touch-down after the long flight: surface squitters from here on
         if ground:
             gs = rng.choice([0, 0.1, 3, 12, 30, 80, 140, 170])
             turn = rng.choice([0, 0, 0, 2, -2, 6])
@@ -200,7 +202,9 @@ def gen_world(rw, rf, T, budget, base=None, tmode=None, n_clean=None, outage=Fal
     if n_clean is None:
         n_clean = rw.choice([1, 1, 2, 2, 3, 4, 6])
     used = set()
-    acs = [_gen_aircraft(rw, i, T, used, fast=(outage or steady) and rw.random() < 0.85) for i in range(n_clean)]
+    landing = outage and rw.random() < 0.35   # position outage in flight, positions resume on the ground
+    land_at = rw.choice([330, 500, 700, 880]) if landing else None
+    acs = [_gen_aircraft(rw, i, T, used, fast=(outage or steady) and (landing or rw.random() < 0.85), land_at=land_at) for i in range(n_clean)]
     # receiver: near a ground-capable aircraft (within ~0.3 deg), placed on
     # either side of equator / antimeridian / Greenwich when the start is there
     rcv = None
@@ -281,6 +285,9 @@ def gen_world(rw, rf, T, budget, base=None, tmode=None, n_clean=None, outage=Fal
         if (outage or rf.random() < 0.1) and not steady:
             o0 = rf.uniform(0, T * 0.4) if not outage else rf.uniform(20, 250)
             pos_out = (o0, o0 + (rf.choice([150, 179, 181, 200, 400]) if not outage else rf.choice([1150, 1300, 1300, 1500])))
+            if landing:
+                o0 = rf.uniform(15, 40)
+                pos_out = (o0, land_at + rf.choice([-20, 0, 5, 30]))   # 270-900 s without positions, > 45 NM flown
         a["faults"] = {"p_loss": p_loss, "p_dup": p_dup, "gaps": gaps, "style": style, "pos_outage": pos_out, "parity_outage": par_out}
         ver = rw.choice([0, 1, 2, 2, None])
         t = rw.uniform(0, min(30, T / 3))
@@ -539,6 +546,9 @@ def execute(sc, keep_log=False):
         stats.c["fault.silence_gap_msgs"] += a.get("n_gap", 0)
         stats.c["fault.position_only_outage_msgs"] += a.get("n_posout", 0)
         stats.c["fault.one_parity_outage_msgs"] += a.get("n_parout", 0)
+        po_ = (a.get("faults") or {}).get("pos_outage")
+        if po_ and 260 <= po_[1] - po_[0] <= 900 and any(l[3] == 1 for l in a["traj"]["legs"]):
+            stats.c["probe.position_outage_270_900s_then_surface"] += 1
         if (a.get("faults") or {}).get("style") == "steady":
             stats.c["probe.half_hour_continuous_track"] += 1
         if a.get("n_lost") or a.get("n_dup") or a.get("n_gap"):
